@@ -698,22 +698,59 @@ func trimParens(s string) string { return strings.TrimSpace(s) }
 
 // byte-order helpers of encoding/binary and the float bit casts of package math: no heap effect beyond the
 // destination slice; a too-short slice panics (safe.index obligation).
+func (vc *VC) declUint(width int) {
+	args := strings.TrimSpace(strings.Repeat("Int ", width))
+	vc.decl(fmt.Sprintf("bo.u%d", width*8), fmt.Sprintf("(declare-fun bo.u%d (%s) Int)", width*8, args))
+}
+
 func byteOrderRead(width int) stdSpec {
 	return func(fr *frame, c *ssa.CallCommon, args []T, st *state, pos string) []T {
+		vc := fr.vc
 		b := args[len(args)-1]
 		fr.obligeHere("safe.index", "", st, fmt.Sprintf("(>= (s_len %s) %d)", b.S, width), pos)
-		fr.vc.assumedStd["encoding/binary ByteOrder.UintN(b): some value in [0, 2^N) computed from b[:N/8]; panics when len(b) < N/8; no other effect"] = true
+		vc.assumedStd["encoding/binary ByteOrder.UintN(b) / PutUintN(b, v): UintN returns bo.uN(b[0..N/8)) in [0, 2^N), an uninterpreted function of the bytes; PutUintN writes exactly b[:N/8] such that bo.uN of them is v; byte order itself is abstracted (one function for both orders); both panic when len(b) < N/8"] = true
+		vc.declUint(width)
+		h := vc.heapGet(st, vc.heapArr("Int"))
+		var bs []string
+		for j := 0; j < width; j++ {
+			bs = append(bs, vc.at("Int", h, b.S, fmt.Sprintf("%d", j)))
+		}
 		rt := c.Signature().Results().At(0).Type()
-		return []T{fr.freshOf("bo_v", rt, st)}
+		v := T{fmt.Sprintf("(bo.u%d %s)", width*8, strings.Join(bs, " ")), "Int", rt}
+		r := fr.freshOf("bo_v", rt, st)
+		vc.assume(st.reach, fmt.Sprintf("(= %s %s)", r.S, v.S))
+		return []T{r}
 	}
 }
 
 func byteOrderPut(width int) stdSpec {
 	return func(fr *frame, c *ssa.CallCommon, args []T, st *state, pos string) []T {
+		vc := fr.vc
 		b := args[len(args)-2]
+		v := args[len(args)-1]
 		fr.obligeHere("safe.index", "", st, fmt.Sprintf("(>= (s_len %s) %d)", b.S, width), pos)
-		fr.vc.assumedStd["encoding/binary ByteOrder.PutUintN(b, v): writes b[:N/8] only; panics when len(b) < N/8"] = true
-		fr.havocTarget(T{b.S, "Slice", c.Args[len(c.Args)-2].Type()}, st, pos)
+		vc.assumedStd["encoding/binary ByteOrder.UintN(b) / PutUintN(b, v): UintN returns bo.uN(b[0..N/8)) in [0, 2^N), an uninterpreted function of the bytes; PutUintN writes exactly b[:N/8] such that bo.uN of them is v; byte order itself is abstracted (one function for both orders); both panic when len(b) < N/8"] = true
+		vc.declUint(width)
+		bs := vc.nameConst("bo_b", "Slice", b.S)
+		fr.frameCheck("frame.store", fmt.Sprintf("(s_arr %s)", bs), st, pos, fmt.Sprintf("(= (s_cap %s) 0)", bs))
+		name := vc.heapArr("Int")
+		oldH := vc.heapGet(st, name)
+		inner := vc.declareConst("bo_arr", "(Array Int Int)")
+		var outs []string
+		for j := 0; j < width; j++ {
+			e := fmt.Sprintf("(select %s (+ (s_off %s) %d))", inner, bs, j)
+			outs = append(outs, e)
+			vc.assume(st.reach, fmt.Sprintf("(and (<= 0 %s) (<= %s 255))", e, e))
+		}
+		vc.assume(st.reach, fmt.Sprintf("(forall ((q Int)) (! (=> (or (< q (s_off %s)) (>= q (+ (s_off %s) %d))) (= (select %s q) (select (select %s (s_arr %s)) q))) :pattern ((select %s q))))",
+			bs, bs, width, inner, oldH, bs, inner))
+		vc.assume(st.reach, fmt.Sprintf("(= (bo.u%d %s) %s)", width*8, strings.Join(outs, " "), v.S))
+		_, newH := vc.heapStoreRef(st, name, fmt.Sprintf("(s_arr %s)", bs), inner)
+		// element view of the update (at-terms are what the frame axioms and invariants talk about)
+		an := vc.at("Int", newH, "s", "j")
+		ao := vc.at("Int", oldH, "s", "j")
+		vc.emit(fmt.Sprintf("(assert (forall ((s Slice) (j Int)) (! (=> (and (= (s_arr s) (s_arr %s)) (or (< (+ (s_off s) j) (s_off %s)) (>= (+ (s_off s) j) (+ (s_off %s) %d)))) (= %s %s)) :pattern (%s))))",
+			bs, bs, bs, width, an, ao, an))
 		return []T{}
 	}
 }
